@@ -13,7 +13,7 @@
      run / srun       histories of operations on four registers, model / specification *)
 From Coq Require Import List ZArith Bool.
 Import ListNotations.
-From DDP Require Import Rt.Str Rt.StrSpec Rt.StrBase Rt.StrUtf8 Rt.StrOps Rt.StrOps2 Rt.StrOps3 Rt.StrHistory Rt.StrShrink.
+From DDP Require Import Rt.Str Rt.StrSpec Rt.StrBase Rt.StrUtf8 Rt.StrOps Rt.StrOps2 Rt.StrOps3 Rt.StrHistory Rt.StrOld.
 Open Scope Z_scope.
 
 (* ---- encode / decode for EVERY scalar value (range lemmas, no sampling) ---------------------------------- *)
@@ -117,69 +117,39 @@ Theorem C12_casts :
 Proof. exact (conj cast_roundtrip_char cast_roundtrip_int). Qed.
 Print Assumptions C12_casts.
 
-(* in-place replacement: correct and invariant-preserving when the new character is not SHORTER in
-   UTF-8 than the one it replaces (partial: see the refutation below) *)
-Theorem C12_replace_partial : forall enc dec, codec_ok enc dec ->
+(* in-place replacement by ANY text character (shorter, equal or longer in UTF-8): the code points
+   are replaced, well-formedness is kept, Laufzeitfehler outside 1..length *)
+Theorem C12_replace : forall enc dec, codec_ok enc dec ->
   forall s cs ch i, repr s cs -> tchar ch = true ->
-    (forall old, s_index cs i = Ok old -> cp_len old <= cp_len ch) ->
     rres (replace_char_in_string enc s ch i) (s_replace cs ch i).
 Proof. exact (fun enc dec C => replace_char_repr enc (fun c H => proj1 C c (tchar_scalar c H))). Qed.
-Print Assumptions C12_replace_partial.
-
-(* for EVERY replacement character (also a shorter one) the code points of the result are right or
-   both sides raise the Laufzeitfehler; cps_res compares the code-point view only, not well-formedness *)
-Theorem C12_replace_code_points_partial : forall enc dec, codec_ok enc dec ->
-  forall s cs ch i, repr s cs -> tchar ch = true ->
-    cps_res (replace_char_in_string enc s ch i) (s_replace cs ch i).
-Proof. exact (fun enc dec C => replace_char_cps enc (fun c H => proj1 C c (tchar_scalar c H))). Qed.
-Print Assumptions C12_replace_code_points_partial.
-
-Theorem C12_replace_shorter_refuted :
-  exists s cs ch i s' r, repr s cs /\ tchar ch = true /\
-    replace_char_in_string glibc_enc s ch i = Ok s' /\ s_replace cs ch i = Ok r /\ cps s' = Some r /\ ~ wf s'.
-Proof.
-  exact (ex_intro _ _ (ex_intro _ _ (ex_intro _ 97 (ex_intro _ 1 (ex_intro _ shrunk_example (ex_intro _ [97; 98]
-    (conj shrunk_source_repr (conj eq_refl (conj replace_shorter_example
-      (conj (proj1 shrunk_cps) (conj (proj2 shrunk_cps) shrunk_not_wf))))))))))).
-Qed.
-Print Assumptions C12_replace_shorter_refuted.
+Print Assumptions C12_replace.
 
 (* ---- histories ------------------------------------------------------------------------------------------------ *)
-(* every history of operations over texts whose replacements never shrink a character is observed
-   exactly as on code-point lists, and ends in representations of the specification's texts *)
-Theorem C12_history_refines_partial : forall enc dec, codec_ok enc dec ->
-  forall ops, along text_guard sinit ops = true ->
+(* EVERY history of operations over texts (literals that are UTF-8 encodings of texts, characters that
+   are non-NUL scalar values) is observed exactly as on code-point lists, and ends in representations
+   of the specification's texts — whatever mixture of literal, copy, concatenation, slice and
+   replacement by shorter/equal/longer characters produced the values *)
+Theorem C12_history_refines : forall enc dec, codec_ok enc dec ->
+  forall ops, along (fun _ => in_text) sinit ops = true ->
     fst (run enc dec init_state ops) = fst (srun sinit ops) /\
     fin_rel (snd (run enc dec init_state ops)) (snd (srun sinit ops)).
 Proof. exact (fun enc dec C ops => history_refines enc dec C ops init_state sinit init_rel). Qed.
-Print Assumptions C12_history_refines_partial.
+Print Assumptions C12_history_refines.
 
-(* the full statement (all histories over texts) is false of the pinned runtime *)
-Theorem C12_history_refuted :
-  exists ops, along (fun _ => in_text) sinit ops = true /\ fst (m_run init_state ops) <> fst (srun sinit ops).
-Proof. exact (ex_intro _ concat_witness concat_witness_differs). Qed.
-Print Assumptions C12_history_refuted.
-
-Theorem C12_equal_refuted :
-  along (fun _ => in_text) sinit equal_witness = true /\
-  fst (m_run init_state equal_witness) = [VNone; VNone; VNone; VNone; VChars (E [97; 120]); VChars (E [97; 120]); VBool false] /\
-  fst (srun sinit equal_witness) = [VNone; VNone; VNone; VNone; VChars (E [97; 120]); VChars (E [97; 120]); VBool true].
-Proof. exact equal_witness_runs. Qed.
-Print Assumptions C12_equal_refuted.
-
-Theorem C12_iterate_refuted :
-  along (fun _ => in_text) sinit iterate_witness = true /\
-  snd (m_run init_state iterate_witness) = Stuck /\
-  fst (srun sinit iterate_witness) = [VNone; VNone; VChars [97; 98]].
-Proof. exact iterate_witness_runs. Qed.
-Print Assumptions C12_iterate_refuted.
-
-Theorem C12_equal_overread_refuted :
-  along (fun _ => in_text) sinit overread_witness = true /\
-  snd (m_run init_state overread_witness) = OOB /\
-  fst (srun sinit overread_witness) = [VNone; VNone; VNone; VBool true].
-Proof. exact overread_witness_runs. Qed.
-Print Assumptions C12_equal_overread_refuted.
+(* documentation of the repaired defect (/repo 629848a): the replacement as it was BEFORE the fix
+   (Rt/StrOld.v, capacity kept) left a string that is not well formed; concatenation then lost the
+   appended text, iteration did not terminate and equality read outside the block.  The current
+   definition returns the well-formed {"ab", 3} on the same input. *)
+Theorem C12_old_replace_shorter_refuted :
+  exists s cs ch i s', repr s cs /\ tchar ch = true /\
+    replace_char_in_string_old glibc_enc s ch i = Ok s' /\ ~ wf s' /\
+    (r <- string_string_verkettet s' (mkstr [88; 0] 2) ;; print_text r) = Ok (E [97; 98]) /\
+    string_iterate glibc_dec s' = Stuck /\
+    string_equal false s' (mkstr [97; 98; 0] 3) = OOB /\
+    replace_char_in_string glibc_enc s ch i = Ok (mkstr [97; 98; 0] 3).
+Proof. exact old_replace_shorter_refuted. Qed.
+Print Assumptions C12_old_replace_shorter_refuted.
 
 (* U+0000 is a scalar value, but not a character of a NUL-terminated Text *)
 Theorem C12_nul_char_refuted :
@@ -198,18 +168,15 @@ Proof. exact (conj glibc_codec_ok (conj eq_refl eq_refl)). Qed.
 Example C12_operations_nonvacuous :
   string_index glibc_dec sample_string 4 = Ok 128512 /\ string_index glibc_dec sample_string 5 = Err /\
   s_slice sample_text 2 9 = Ok [228; 8364; 128512] /\ s_slice sample_text 3 2 = Err /\
-  (forall old, s_index sample_text 2 = Ok old -> cp_len old <= cp_len 8364).
-Proof.
-  repeat split; try (vm_compute; reflexivity).
-  intros old H. vm_compute in H. injection H as <-. vm_compute. discriminate.
-Qed.
+  replace_char_in_string glibc_enc sample_string 97 3 = Ok (mkstr (E [72; 228; 97; 128512] ++ [0]) 9).
+Proof. repeat split; vm_compute; reflexivity. Qed.
 Definition sample_history : list op :=
-  [OLit 0 (E sample_text); OReplace 0 8364 2; OSlice 1 0 2 3; OConcat 2 1 0; OConcatSC 3 2 128512;
+  [OLit 0 (E sample_text); OReplace 0 8364 2; OReplace 0 97 3; OSlice 1 0 2 3; OConcat 2 1 0; OConcatSC 3 2 128512;
    OEqual 0 2; OIndex 3 2; OIter 3; OIndex 3 99].
 Example C12_history_nonvacuous :
-  along text_guard sinit sample_history = true /\
+  along (fun _ => in_text) sinit sample_history = true /\
   fst (srun sinit sample_history) =
-    [VNone; VNone; VNone; VNone; VNone; VBool false; VInt 8364;
-     VChars [8364; 8364; 72; 8364; 8364; 128512; 128512]] /\
+    [VNone; VNone; VNone; VNone; VNone; VNone; VBool false; VInt 97;
+     VChars [8364; 97; 72; 8364; 97; 128512; 128512]] /\
   snd (srun sinit sample_history) = Err.
 Proof. vm_compute. auto. Qed.
